@@ -32,7 +32,7 @@ def immPad (s : Instr) (bytes : Nat) : Nat :=
   if s.reducedImm || s.kw.isByte then 0 else
   let row := rowAt s.key
   let type := row.type
-  let mode := s.opd0.reg &&& c_MODE_MASK
+  let mode := opd0WidthMode s
   let zeroPad :=
     ((type != c_CONTROL_FLOW && s.opOffset != 3 && !s.kw.isByte) && mode > c_noext8) ||
     (row.enc > c_I) || (type == c_PAD_ALWAYS)
@@ -71,7 +71,7 @@ def assembleVEX (s : Instr) (vex0 : Nat) : Bytes :=
   let (vex, first) :=
     if (vex0 &&& c_W0_W1) == c_W0_W1 && !s.hex.isW0 then (vex0 &&& (2 ^ 32 - 1 - c_W1), c_C4H)
     else if band vex0 c_WIG && !band vex0 c_W1 then
-      (vex0, if !band rex c_rex_b then c_C5H else c_C4H)
+      (vex0, if !band rex (c_rex_b ||| c_rex_x) then c_C5H else c_C4H)
     else (vex0, c_C4H)
   let vex := vex >>> 1
   let b1 : Bytes := vexMid first vex rex
